@@ -3,7 +3,8 @@ C13 — Kenamond 3 (one detonator, one explosive, inert spherical obstacle of ra
 origin), 2-D and 3-D.
 
 The traced burn time (`Kenamond3.__init__` + `_run`, line-of-sight leaf and shadow leaf) is
-the documented solution `EPV.Spec.Burn.k3` on `EuclideanSpace ℝ (Fin n)` (`k3dN_eq_spec`):
+the documented solution `EPV.Spec.Burn.k3` on `EuclideanSpace ℝ (Fin n)` (`EPV.Burn.k3dN_eq_spec`,
+`EPV.Burn.k3dN_outcome` in EPV/Lemmas/BurnK3.lean):
 the straight cone where θ ≤ 0, and t_d + (l_da + Rθ + l_bp)/D in the shadow θ > 0.
 Under the constructor's checks (R > 0, D > 0, ‖x_d‖ > R) and for points of the explosive
 (‖q‖ ≥ R, anything else raises ValueError):
@@ -17,14 +18,22 @@ Under the constructor's checks (R > 0, D > 0, ‖x_d‖ > R) and for points of t
 * in the line-of-sight region the field is the Kenamond 1 cone: 1/D-Lipschitz between
   line-of-sight points, eikonal along rays                   (`k3dN_los`, `k3dN_lipschitz_los`).
 
-(P) Not proved: the gradient norm 1/D of the shadow-region formula and the 1/D bound for
-pairs of points of which one is shadowed (the explosive is not convex; the bound holds along
-segments that stay inside it).  Sampled by the oracle `o_burn.k3_lipschitz`.
+* strictly inside the line-of-sight region the gradient exists and has magnitude 1/D
+                                                           (`k3dN_gradient_los`).
+
+* strictly inside the shadow region, off the ray directly behind the obstacle (where the waves
+  passing on both sides meet and the field has a kink), the gradient exists and has magnitude 1/D
+  — from the generated certificates through arccos and sqrt       (`k3dN_gradient_shadow`).
+
+(P) Not proved: the 1/D bound for pairs of points of which one is shadowed (the explosive is
+not convex; the bound holds along segments that stay inside it — it would follow from the two
+gradient theorems by a mean-value argument along the segment, which is not carried out).
+Sampled by the oracle `o_burn.k3` (site `Kenamond3:lipschitz`).
 -/
-import EPV.Gen.K3d2
-import EPV.Gen.K3d3
+import EPV.Gen.K3d2D
+import EPV.Gen.K3d3D
 import EPV.Spec.Burn
-import EPV.Lemmas.BurnModels
+import EPV.Lemmas.BurnK3
 import EPV.Tactics
 
 set_option linter.all false
@@ -157,6 +166,414 @@ theorem k3d3_lipschitz_partial (p : K3d3.P) (h : K3d3.Adm p) (q q' : E3) (hq : p
     (hθ : k3theta p.R (K3d3.det p) q ≤ 0) (hθ' : k3theta p.R (K3d3.det p) q' ≤ 0) :
     |K3d3.burntime p (q 0) (q 1) (q 2) - K3d3.burntime p (q' 0) (q' 1) (q' 2)| ≤ dist q q' / p.D := by
   rw [k3d3_los p h q hq hθ, k3d3_los p h q' hq' hθ']; exact cone_lipschitz _ h.hD _ _ _
+
+/-! #### gradient in the line-of-sight region (generated certificates) -/
+
+/-- Kenamond 3, 2-D: strictly inside the line-of-sight region and off the obstacle, the gradient
+exists and has magnitude 1/D (the field is the Kenamond 1 cone there) -/
+theorem k3d2_gradient_los (p : K3d2.P) (h : K3d2.Adm p) (x y : ℝ) (hq : p.R < ‖(!₂[x, y] : E2)‖)
+    (hθ : k3theta p.R (K3d2.det p) !₂[x, y] < 0) (hne : ¬(x = p.xd0 ∧ y = p.xd1)) :
+    ∃ gx gy : ℝ, HasDerivAt (fun x' => K3d2.burntime p x' y) gx x ∧
+      HasDerivAt (fun y' => K3d2.burntime p x y') gy y ∧ gx ^ 2 + gy ^ 2 = (1 / p.D) ^ 2 := by
+  have hxd0 : ‖K3d2.det p‖ ≠ 0 := (h.hR.trans h.hdet).ne'
+  have hq0 : ‖(!₂[x, y] : E2)‖ ≠ 0 := (h.hR.trans hq).ne'
+  -- near (x, y) the request is served from the line-of-sight leaf
+  have near : ∀ᶠ q' in nhds (!₂[x, y] : E2), K3d2.burntime p (q' 0) (q' 1) = K3d2.L5.burntime p (q' 0) (q' 1) := by
+    have h1 : ∀ᶠ q' in nhds (!₂[x, y] : E2), k3theta p.R (K3d2.det p) q' < 0 :=
+      (k3theta_continuousAt hxd0 hq0).eventually (gt_mem_nhds hθ)
+    have h2 : ∀ᶠ q' in nhds (!₂[x, y] : E2), p.R < ‖q'‖ :=
+      continuous_norm.continuousAt.eventually (lt_mem_nhds hq)
+    filter_upwards [h1, h2] with q' hθ' hq'
+    have hok := (k3d2_outcome p q').mpr ⟨h, hq'.le⟩
+    simp only [epv_tree, ite_raise_eq_ok, ite_self] at hok
+    obtain ⟨c0, c1, c2, c3, -⟩ := hok
+    have c4 : ¬ K3d2.c4 p (q' 0) (q' 1) := fun hc => not_lt.mpr hθ'.le ((k3d2_shadow_iff p q').mp hc)
+    simp only [epv_tree, if_neg c0, if_neg c1, if_neg c2, if_neg c3, if_neg c4]
+  have hs : (x - p.xd0) * (x - p.xd0) + (y - p.xd1) * (y - p.xd1) ≠ 0 := by
+    intro h0
+    apply hne
+    constructor <;> nlinarith [mul_self_nonneg (x - p.xd0), mul_self_nonneg (y - p.xd1)]
+  have hpos : 0 < (x - p.xd0) * (x - p.xd0) + (y - p.xd1) * (y - p.xd1) :=
+    lt_of_le_of_ne (by nlinarith [mul_self_nonneg (x - p.xd0), mul_self_nonneg (y - p.xd1)]) (Ne.symm hs)
+  have cx : ContinuousAt (fun x' : ℝ => (!₂[x', y] : E2)) x := by
+    refine Continuous.continuousAt ?_
+    exact (PiLp.continuous_toLp 2 _).comp (continuous_pi fun i => by fin_cases i <;> simp <;> fun_prop)
+  have cy : ContinuousAt (fun y' : ℝ => (!₂[x, y'] : E2)) y := by
+    refine Continuous.continuousAt ?_
+    exact (PiLp.continuous_toLp 2 _).comp (continuous_pi fun i => by fin_cases i <;> simp <;> fun_prop)
+  refine ⟨K3d2.L5.burntime_dx p x y, K3d2.L5.burntime_dy p x y, ?_, ?_, ?_⟩
+  · refine (K3d2.L5.burntime_hasDerivAt_x p x y hs).congr_of_eventuallyEq ?_
+    have := cx.eventually near
+    filter_upwards [this] with x' hx'
+    simpa using hx'
+  · refine (K3d2.L5.burntime_hasDerivAt_y p x y hs).congr_of_eventuallyEq ?_
+    have := cy.eventually near
+    filter_upwards [this] with y' hy'
+    simpa using hy'
+  · simp only [epv_deriv]
+    set s := Real.sqrt ((x - p.xd0) * (x - p.xd0) + (y - p.xd1) * (y - p.xd1)) with hs'
+    have hs0 : 0 < s := Real.sqrt_pos.mpr hpos
+    have hs2 : s * s = (x - p.xd0) * (x - p.xd0) + (y - p.xd1) * (y - p.xd1) := Real.mul_self_sqrt hpos.le
+    have := h.hD.ne'
+    field_simp
+    nlinarith
+
+/-- Kenamond 3, 3-D: strictly inside the line-of-sight region and off the obstacle, the gradient
+exists and has magnitude 1/D (the field is the Kenamond 1 cone there) -/
+theorem k3d3_gradient_los (p : K3d3.P) (h : K3d3.Adm p) (x y z : ℝ) (hq : p.R < ‖(!₂[x, y, z] : E3)‖)
+    (hθ : k3theta p.R (K3d3.det p) !₂[x, y, z] < 0) (hne : ¬(x = p.xd0 ∧ y = p.xd1 ∧ z = p.xd2)) :
+    ∃ gx gy gz : ℝ, HasDerivAt (fun x' => K3d3.burntime p x' y z) gx x ∧
+      HasDerivAt (fun y' => K3d3.burntime p x y' z) gy y ∧ HasDerivAt (fun z' => K3d3.burntime p x y z') gz z ∧
+      gx ^ 2 + gy ^ 2 + gz ^ 2 = (1 / p.D) ^ 2 := by
+  have hxd0 : ‖K3d3.det p‖ ≠ 0 := (h.hR.trans h.hdet).ne'
+  have hq0 : ‖(!₂[x, y, z] : E3)‖ ≠ 0 := (h.hR.trans hq).ne'
+  -- near (x, y) the request is served from the line-of-sight leaf
+  have near : ∀ᶠ q' in nhds (!₂[x, y, z] : E3), K3d3.burntime p (q' 0) (q' 1) (q' 2) = K3d3.L5.burntime p (q' 0) (q' 1) (q' 2) := by
+    have h1 : ∀ᶠ q' in nhds (!₂[x, y, z] : E3), k3theta p.R (K3d3.det p) q' < 0 :=
+      (k3theta_continuousAt hxd0 hq0).eventually (gt_mem_nhds hθ)
+    have h2 : ∀ᶠ q' in nhds (!₂[x, y, z] : E3), p.R < ‖q'‖ :=
+      continuous_norm.continuousAt.eventually (lt_mem_nhds hq)
+    filter_upwards [h1, h2] with q' hθ' hq'
+    have hok := (k3d3_outcome p q').mpr ⟨h, hq'.le⟩
+    simp only [epv_tree, ite_raise_eq_ok, ite_self] at hok
+    obtain ⟨c0, c1, c2, c3, -⟩ := hok
+    have c4 : ¬ K3d3.c4 p (q' 0) (q' 1) (q' 2) := fun hc => not_lt.mpr hθ'.le ((k3d3_shadow_iff p q').mp hc)
+    simp only [epv_tree, if_neg c0, if_neg c1, if_neg c2, if_neg c3, if_neg c4]
+  have hs : (x - p.xd0) * (x - p.xd0) + (y - p.xd1) * (y - p.xd1) + (z - p.xd2) * (z - p.xd2) ≠ 0 := by
+    intro h0
+    apply hne
+    refine ⟨?_, ?_, ?_⟩ <;> nlinarith [mul_self_nonneg (x - p.xd0), mul_self_nonneg (y - p.xd1), mul_self_nonneg (z - p.xd2)]
+  have hpos : 0 < (x - p.xd0) * (x - p.xd0) + (y - p.xd1) * (y - p.xd1) + (z - p.xd2) * (z - p.xd2) :=
+    lt_of_le_of_ne (by nlinarith [mul_self_nonneg (x - p.xd0), mul_self_nonneg (y - p.xd1), mul_self_nonneg (z - p.xd2)]) (Ne.symm hs)
+  have cx : ContinuousAt (fun x' : ℝ => (!₂[x', y, z] : E3)) x := by
+    refine Continuous.continuousAt ?_
+    exact (PiLp.continuous_toLp 2 _).comp (continuous_pi fun i => by fin_cases i <;> simp <;> fun_prop)
+  have cy : ContinuousAt (fun y' : ℝ => (!₂[x, y', z] : E3)) y := by
+    refine Continuous.continuousAt ?_
+    exact (PiLp.continuous_toLp 2 _).comp (continuous_pi fun i => by fin_cases i <;> simp <;> fun_prop)
+  have cz : ContinuousAt (fun z' : ℝ => (!₂[x, y, z'] : E3)) z := by
+    refine Continuous.continuousAt ?_
+    exact (PiLp.continuous_toLp 2 _).comp (continuous_pi fun i => by fin_cases i <;> simp <;> fun_prop)
+  refine ⟨K3d3.L5.burntime_dx p x y z, K3d3.L5.burntime_dy p x y z, K3d3.L5.burntime_dz p x y z, ?_, ?_, ?_, ?_⟩
+  · refine (K3d3.L5.burntime_hasDerivAt_x p x y z hs).congr_of_eventuallyEq ?_
+    have := cx.eventually near
+    filter_upwards [this] with x' hx'
+    simpa using hx'
+  · refine (K3d3.L5.burntime_hasDerivAt_y p x y z hs).congr_of_eventuallyEq ?_
+    have := cy.eventually near
+    filter_upwards [this] with y' hy'
+    simpa using hy'
+  · refine (K3d3.L5.burntime_hasDerivAt_z p x y z hs).congr_of_eventuallyEq ?_
+    have := cz.eventually near
+    filter_upwards [this] with z' hz'
+    simpa using hz'
+  · simp only [epv_deriv]
+    set s := Real.sqrt ((x - p.xd0) * (x - p.xd0) + (y - p.xd1) * (y - p.xd1) + (z - p.xd2) * (z - p.xd2)) with hs'
+    have hs0 : 0 < s := Real.sqrt_pos.mpr hpos
+    have hs2 : s * s = (x - p.xd0) * (x - p.xd0) + (y - p.xd1) * (y - p.xd1) + (z - p.xd2) * (z - p.xd2) := Real.mul_self_sqrt hpos.le
+    have := h.hD.ne'
+    field_simp
+    nlinarith
+
+
+/-! #### gradient in the shadow region (generated certificates through arccos and sqrt) -/
+
+/-- closed form of the x-derivative of the shadow leaf -/
+theorem k3d2_L4_dx (p : K3d2.P) (x y lod lop lbp w : ℝ)
+    (hlod : Real.sqrt (p.xd0 * p.xd0 + p.xd1 * p.xd1) = lod) (hlop : Real.sqrt (x * x + y * y) = lop)
+    (hlop2 : lop ^ 2 = x * x + y * y) (hlop0 : 0 < lop) (hlod0 : 0 < lod) (hR : 0 < p.R) (hD : 0 < p.D)
+    (hlbp : Real.sqrt (lop ^ 2 - p.R ^ 2) = lbp) (hlbp2 : lbp ^ 2 = lop ^ 2 - p.R ^ 2) (hlbp0 : 0 < lbp)
+    (hw : Real.sqrt (1 - (-(x * p.xd0 + y * p.xd1) / (lod * lop)) ^ 2) = w) (hw0 : 0 < w) :
+    K3d2.L4.burntime_dx p x y
+      = (p.R * ((-p.xd0 * lop ^ 2 + (x * p.xd0 + y * p.xd1) * x) / (w * lod * lop ^ 3)) + x * lbp / lop ^ 2) / p.D := by
+  simp only [epv_deriv, hlod, hlop, hlbp, hw]
+  have hu : Real.sqrt (1 - (p.R / lop) ^ 2) = lbp / lop := by
+    have := sqrt_one_sub_div_sq_mul (R := p.R) hlop0
+    rw [hlbp] at this
+    rw [eq_div_iff hlop0.ne']; exact this
+  rw [hu]
+  field_simp
+  linear_combination (-(2 * x * w * lod * lop)) * hlbp2
+
+theorem k3d2_L4_dy (p : K3d2.P) (x y lod lop lbp w : ℝ)
+    (hlod : Real.sqrt (p.xd0 * p.xd0 + p.xd1 * p.xd1) = lod) (hlop : Real.sqrt (x * x + y * y) = lop)
+    (hlop2 : lop ^ 2 = x * x + y * y) (hlop0 : 0 < lop) (hlod0 : 0 < lod) (hR : 0 < p.R) (hD : 0 < p.D)
+    (hlbp : Real.sqrt (lop ^ 2 - p.R ^ 2) = lbp) (hlbp2 : lbp ^ 2 = lop ^ 2 - p.R ^ 2) (hlbp0 : 0 < lbp)
+    (hw : Real.sqrt (1 - (-(x * p.xd0 + y * p.xd1) / (lod * lop)) ^ 2) = w) (hw0 : 0 < w) :
+    K3d2.L4.burntime_dy p x y
+      = (p.R * ((-p.xd1 * lop ^ 2 + (x * p.xd0 + y * p.xd1) * y) / (w * lod * lop ^ 3)) + y * lbp / lop ^ 2) / p.D := by
+  simp only [epv_deriv, hlod, hlop, hlbp, hw]
+  have hu : Real.sqrt (1 - (p.R / lop) ^ 2) = lbp / lop := by
+    have := sqrt_one_sub_div_sq_mul (R := p.R) hlop0
+    rw [hlbp] at this
+    rw [eq_div_iff hlop0.ne']; exact this
+  rw [hu]
+  field_simp
+  linear_combination (-(2 * y * w * lod * lop)) * hlbp2
+
+/-- the algebra of the eikonal equation around the obstacle (any dimension: `N` is the list of
+numerators `-a_i ‖q‖² + ⟨q, x_d⟩ x_i`) -/
+theorem k3_shadow_grad_sq {R D lod lop lbp w S sN sxN sx : ℝ}
+    (hD : 0 < D) (hlop0 : 0 < lop) (hlod0 : 0 < lod) (hw0 : 0 < w)
+    (hlbp2 : lbp ^ 2 = lop ^ 2 - R ^ 2) (hw2 : w ^ 2 * (lod ^ 2 * lop ^ 2) = lod ^ 2 * lop ^ 2 - S ^ 2)
+    (hsN : sN = lop ^ 2 * (lod ^ 2 * lop ^ 2 - S ^ 2)) (hsxN : sxN = 0) (hsx : sx = lop ^ 2) :
+    (R ^ 2 * sN / (w * lod * lop ^ 3) ^ 2 + 2 * R * lbp * sxN / ((w * lod * lop ^ 3) * lop ^ 2)
+      + lbp ^ 2 * sx / lop ^ 4) / D ^ 2 = (1 / D) ^ 2 := by
+  rw [hsN, hsxN, hsx, ← hw2]
+  field_simp
+  linear_combination (lop ^ 3 * w * lod) * hlbp2
+
+/-- Kenamond 3, 2-D: strictly inside the shadow region, off the obstacle and off the ray directly
+behind it (where the waves passing the obstacle on both sides meet and the field has a kink), the
+gradient exists and has magnitude 1/D -/
+theorem k3d2_gradient_shadow (p : K3d2.P) (h : K3d2.Adm p) (x y : ℝ) (hq : p.R < ‖(!₂[x, y] : E2)‖)
+    (hθ : 0 < k3theta p.R (K3d2.det p) !₂[x, y]) (hcol : x * p.xd1 - y * p.xd0 ≠ 0) :
+    ∃ gx gy : ℝ, HasDerivAt (fun x' => K3d2.burntime p x' y) gx x ∧
+      HasDerivAt (fun y' => K3d2.burntime p x y') gy y ∧ gx ^ 2 + gy ^ 2 = (1 / p.D) ^ 2 := by
+  have hxd0 : ‖K3d2.det p‖ ≠ 0 := (h.hR.trans h.hdet).ne'
+  have hq0 : ‖(!₂[x, y] : E2)‖ ≠ 0 := (h.hR.trans hq).ne'
+  have near : ∀ᶠ q' in nhds (!₂[x, y] : E2), K3d2.burntime p (q' 0) (q' 1) = K3d2.L4.burntime p (q' 0) (q' 1) := by
+    have h1 : ∀ᶠ q' in nhds (!₂[x, y] : E2), 0 < k3theta p.R (K3d2.det p) q' :=
+      (k3theta_continuousAt hxd0 hq0).eventually (lt_mem_nhds hθ)
+    have h2 : ∀ᶠ q' in nhds (!₂[x, y] : E2), p.R < ‖q'‖ :=
+      continuous_norm.continuousAt.eventually (lt_mem_nhds hq)
+    filter_upwards [h1, h2] with q' hθ' hq'
+    have hok := (k3d2_outcome p q').mpr ⟨h, hq'.le⟩
+    simp only [epv_tree, ite_raise_eq_ok, ite_self] at hok
+    obtain ⟨c0, c1, c2, c3, -⟩ := hok
+    have c4 : K3d2.c4 p (q' 0) (q' 1) := (k3d2_shadow_iff p q').mpr hθ'
+    simp only [epv_tree, if_neg c0, if_neg c1, if_neg c2, if_neg c3, if_pos c4]
+  -- the lengths
+  have elod := sqrt_norm2 (K3d2.det p)
+  simp only [K3d2.det_0, K3d2.det_1] at elod
+  have elop : Real.sqrt (x * x + y * y) = ‖(!₂[x, y] : E2)‖ := by simpa using sqrt_norm2 (!₂[x, y] : E2)
+  set lod := ‖K3d2.det p‖ with hlod_def
+  set lop := ‖(!₂[x, y] : E2)‖ with hlop_def
+  have hlod0 : 0 < lod := h.hR.trans h.hdet
+  have hlop0 : 0 < lop := h.hR.trans hq
+  have hlop2 : lop ^ 2 = x * x + y * y := by
+    rw [← elop, Real.sq_sqrt (add_nonneg (mul_self_nonneg _) (mul_self_nonneg _))]
+  have hlod2 : lod ^ 2 = p.xd0 * p.xd0 + p.xd1 * p.xd1 := by
+    rw [← elod, Real.sq_sqrt (add_nonneg (mul_self_nonneg _) (mul_self_nonneg _))]
+  have hbp_pos : 0 < lop ^ 2 - p.R ^ 2 := by nlinarith [h.hR]
+  set lbp := Real.sqrt (lop ^ 2 - p.R ^ 2) with hlbp_def
+  have hlbp0 : 0 < lbp := Real.sqrt_pos.mpr hbp_pos
+  have hlbp2 : lbp ^ 2 = lop ^ 2 - p.R ^ 2 := Real.sq_sqrt hbp_pos.le
+  -- the cosine of the first angle stays away from ±1 off the line through the centre and the detonator
+  set S := x * p.xd0 + y * p.xd1 with hS
+  have hlag : lod ^ 2 * lop ^ 2 - S ^ 2 = (x * p.xd1 - y * p.xd0) ^ 2 := by rw [hlod2, hlop2, hS]; ring
+  have hK2 : 0 < lod ^ 2 * lop ^ 2 - S ^ 2 := by rw [hlag]; positivity
+  have hc2 : (-S / (lod * lop)) ^ 2 < 1 := by
+    rw [div_pow, div_lt_one (by positivity)]; nlinarith
+  have hc_ne1 : -S / (lod * lop) ≠ 1 := fun e => by rw [e] at hc2; norm_num at hc2
+  have hc_ne2 : -S / (lod * lop) ≠ -1 := fun e => by rw [e] at hc2; norm_num at hc2
+  set w := Real.sqrt (1 - (-S / (lod * lop)) ^ 2) with hw_def
+  have hw0 : 0 < w := Real.sqrt_pos.mpr (by linarith)
+  have hw2 : w ^ 2 * (lod ^ 2 * lop ^ 2) = lod ^ 2 * lop ^ 2 - S ^ 2 := by
+    rw [hw_def, Real.sq_sqrt (by linarith)]; field_simp
+  -- side conditions of the generated certificates
+  have s1 : x * x + y * y ≠ 0 := by rw [← hlop2]; positivity
+  have s2 : Real.sqrt (p.xd0 * p.xd0 + p.xd1 * p.xd1) * Real.sqrt (x * x + y * y) ≠ 0 := by
+    rw [elod, elop]; positivity
+  have s3 : -(x * p.xd0 + y * p.xd1) / (Real.sqrt (p.xd0 * p.xd0 + p.xd1 * p.xd1) * Real.sqrt (x * x + y * y)) ≠ -1 := by
+    rw [elod, elop]; exact hc_ne2
+  have s4 : -(x * p.xd0 + y * p.xd1) / (Real.sqrt (p.xd0 * p.xd0 + p.xd1 * p.xd1) * Real.sqrt (x * x + y * y)) ≠ 1 := by
+    rw [elod, elop]; exact hc_ne1
+  have s5 : Real.sqrt (x * x + y * y) ≠ 0 := by rw [elop]; exact hlop0.ne'
+  have s6 : p.R / Real.sqrt (x * x + y * y) ≠ -1 := by
+    rw [elop]; have := div_pos h.hR hlop0; linarith
+  have s7 : p.R / Real.sqrt (x * x + y * y) ≠ 1 := by
+    rw [elop]; exact fun e => by rw [div_eq_one_iff_eq hlop0.ne'] at e; linarith
+  have s8 : Real.sqrt (x * x + y * y) ^ 2 - p.R ^ 2 ≠ 0 := by rw [elop]; exact hbp_pos.ne'
+  have cx : ContinuousAt (fun x' : ℝ => (!₂[x', y] : E2)) x := by
+    refine Continuous.continuousAt ?_
+    exact (PiLp.continuous_toLp 2 _).comp (continuous_pi fun i => by fin_cases i <;> simp <;> fun_prop)
+  have cy : ContinuousAt (fun y' : ℝ => (!₂[x, y'] : E2)) y := by
+    refine Continuous.continuousAt ?_
+    exact (PiLp.continuous_toLp 2 _).comp (continuous_pi fun i => by fin_cases i <;> simp <;> fun_prop)
+  refine ⟨K3d2.L4.burntime_dx p x y, K3d2.L4.burntime_dy p x y, ?_, ?_, ?_⟩
+  · refine (K3d2.L4.burntime_hasDerivAt_x p x y s1 s2 s3 s4 s5 s6 s7 s8).congr_of_eventuallyEq ?_
+    have := cx.eventually near
+    filter_upwards [this] with x' hx'
+    simpa using hx'
+  · refine (K3d2.L4.burntime_hasDerivAt_y p x y s1 s2 s3 s4 s5 s6 s7 s8).congr_of_eventuallyEq ?_
+    have := cy.eventually near
+    filter_upwards [this] with y' hy'
+    simpa using hy'
+  · rw [k3d2_L4_dx p x y lod lop lbp w elod elop hlop2 hlop0 hlod0 h.hR h.hD rfl hlbp2 hlbp0 rfl hw0,
+      k3d2_L4_dy p x y lod lop lbp w elod elop hlop2 hlop0 hlod0 h.hR h.hD rfl hlbp2 hlbp0 rfl hw0]
+    have expand : ((p.R * ((-p.xd0 * lop ^ 2 + S * x) / (w * lod * lop ^ 3)) + x * lbp / lop ^ 2) / p.D) ^ 2
+        + ((p.R * ((-p.xd1 * lop ^ 2 + S * y) / (w * lod * lop ^ 3)) + y * lbp / lop ^ 2) / p.D) ^ 2
+        = (p.R ^ 2 * ((-p.xd0 * lop ^ 2 + S * x) ^ 2 + (-p.xd1 * lop ^ 2 + S * y) ^ 2) / (w * lod * lop ^ 3) ^ 2
+          + 2 * p.R * lbp * (x * (-p.xd0 * lop ^ 2 + S * x) + y * (-p.xd1 * lop ^ 2 + S * y))
+              / ((w * lod * lop ^ 3) * lop ^ 2)
+          + lbp ^ 2 * (x * x + y * y) / lop ^ 4) / p.D ^ 2 := by ring
+    rw [expand]
+    refine k3_shadow_grad_sq (S := S) h.hD hlop0 hlod0 hw0 hlbp2 hw2 ?_ ?_ hlop2.symm
+    · rw [hS]; linear_combination (-(lop ^ 2) ^ 2) * hlod2 + (-(x * p.xd0 + y * p.xd1) ^ 2) * hlop2
+    · rw [hS]; linear_combination (-(x * p.xd0 + y * p.xd1)) * hlop2
+
+/-- closed form of the x-derivative of the shadow leaf -/
+theorem k3d3_L4_dx (p : K3d3.P) (x y z lod lop lbp w : ℝ)
+    (hlod : Real.sqrt (p.xd0 * p.xd0 + p.xd1 * p.xd1 + p.xd2 * p.xd2) = lod) (hlop : Real.sqrt (x * x + y * y + z * z) = lop)
+    (hlop2 : lop ^ 2 = x * x + y * y + z * z) (hlop0 : 0 < lop) (hlod0 : 0 < lod) (hR : 0 < p.R) (hD : 0 < p.D)
+    (hlbp : Real.sqrt (lop ^ 2 - p.R ^ 2) = lbp) (hlbp2 : lbp ^ 2 = lop ^ 2 - p.R ^ 2) (hlbp0 : 0 < lbp)
+    (hw : Real.sqrt (1 - (-(x * p.xd0 + y * p.xd1 + z * p.xd2) / (lod * lop)) ^ 2) = w) (hw0 : 0 < w) :
+    K3d3.L4.burntime_dx p x y z
+      = (p.R * ((-p.xd0 * lop ^ 2 + (x * p.xd0 + y * p.xd1 + z * p.xd2) * x) / (w * lod * lop ^ 3)) + x * lbp / lop ^ 2) / p.D := by
+  simp only [epv_deriv, hlod, hlop, hlbp, hw]
+  have hu : Real.sqrt (1 - (p.R / lop) ^ 2) = lbp / lop := by
+    have := sqrt_one_sub_div_sq_mul (R := p.R) hlop0
+    rw [hlbp] at this
+    rw [eq_div_iff hlop0.ne']; exact this
+  rw [hu]
+  field_simp
+  linear_combination (-(2 * x * w * lod * lop)) * hlbp2
+
+theorem k3d3_L4_dy (p : K3d3.P) (x y z lod lop lbp w : ℝ)
+    (hlod : Real.sqrt (p.xd0 * p.xd0 + p.xd1 * p.xd1 + p.xd2 * p.xd2) = lod) (hlop : Real.sqrt (x * x + y * y + z * z) = lop)
+    (hlop2 : lop ^ 2 = x * x + y * y + z * z) (hlop0 : 0 < lop) (hlod0 : 0 < lod) (hR : 0 < p.R) (hD : 0 < p.D)
+    (hlbp : Real.sqrt (lop ^ 2 - p.R ^ 2) = lbp) (hlbp2 : lbp ^ 2 = lop ^ 2 - p.R ^ 2) (hlbp0 : 0 < lbp)
+    (hw : Real.sqrt (1 - (-(x * p.xd0 + y * p.xd1 + z * p.xd2) / (lod * lop)) ^ 2) = w) (hw0 : 0 < w) :
+    K3d3.L4.burntime_dy p x y z
+      = (p.R * ((-p.xd1 * lop ^ 2 + (x * p.xd0 + y * p.xd1 + z * p.xd2) * y) / (w * lod * lop ^ 3)) + y * lbp / lop ^ 2) / p.D := by
+  simp only [epv_deriv, hlod, hlop, hlbp, hw]
+  have hu : Real.sqrt (1 - (p.R / lop) ^ 2) = lbp / lop := by
+    have := sqrt_one_sub_div_sq_mul (R := p.R) hlop0
+    rw [hlbp] at this
+    rw [eq_div_iff hlop0.ne']; exact this
+  rw [hu]
+  field_simp
+  linear_combination (-(2 * y * w * lod * lop)) * hlbp2
+
+theorem k3d3_L4_dz (p : K3d3.P) (x y z lod lop lbp w : ℝ)
+    (hlod : Real.sqrt (p.xd0 * p.xd0 + p.xd1 * p.xd1 + p.xd2 * p.xd2) = lod) (hlop : Real.sqrt (x * x + y * y + z * z) = lop)
+    (hlop2 : lop ^ 2 = x * x + y * y + z * z) (hlop0 : 0 < lop) (hlod0 : 0 < lod) (hR : 0 < p.R) (hD : 0 < p.D)
+    (hlbp : Real.sqrt (lop ^ 2 - p.R ^ 2) = lbp) (hlbp2 : lbp ^ 2 = lop ^ 2 - p.R ^ 2) (hlbp0 : 0 < lbp)
+    (hw : Real.sqrt (1 - (-(x * p.xd0 + y * p.xd1 + z * p.xd2) / (lod * lop)) ^ 2) = w) (hw0 : 0 < w) :
+    K3d3.L4.burntime_dz p x y z
+      = (p.R * ((-p.xd2 * lop ^ 2 + (x * p.xd0 + y * p.xd1 + z * p.xd2) * z) / (w * lod * lop ^ 3)) + z * lbp / lop ^ 2) / p.D := by
+  simp only [epv_deriv, hlod, hlop, hlbp, hw]
+  have hu : Real.sqrt (1 - (p.R / lop) ^ 2) = lbp / lop := by
+    have := sqrt_one_sub_div_sq_mul (R := p.R) hlop0
+    rw [hlbp] at this
+    rw [eq_div_iff hlop0.ne']; exact this
+  rw [hu]
+  field_simp
+  linear_combination (-(2 * z * w * lod * lop)) * hlbp2
+
+
+/-- Kenamond 3, 3-D: strictly inside the shadow region, off the obstacle and off the ray directly
+behind it (x_d, the centre and the point not collinear: strict Cauchy–Schwarz), the gradient exists
+and has magnitude 1/D -/
+theorem k3d3_gradient_shadow (p : K3d3.P) (h : K3d3.Adm p) (x y z : ℝ) (hq : p.R < ‖(!₂[x, y, z] : E3)‖)
+    (hθ : 0 < k3theta p.R (K3d3.det p) !₂[x, y, z])
+    (hcol : (x * p.xd0 + y * p.xd1 + z * p.xd2) ^ 2
+      ≠ (x * x + y * y + z * z) * (p.xd0 * p.xd0 + p.xd1 * p.xd1 + p.xd2 * p.xd2)) :
+    ∃ gx gy gz : ℝ, HasDerivAt (fun x' => K3d3.burntime p x' y z) gx x ∧
+      HasDerivAt (fun y' => K3d3.burntime p x y' z) gy y ∧ HasDerivAt (fun z' => K3d3.burntime p x y z') gz z ∧
+      gx ^ 2 + gy ^ 2 + gz ^ 2 = (1 / p.D) ^ 2 := by
+  have hxd0 : ‖K3d3.det p‖ ≠ 0 := (h.hR.trans h.hdet).ne'
+  have hq0 : ‖(!₂[x, y, z] : E3)‖ ≠ 0 := (h.hR.trans hq).ne'
+  have near : ∀ᶠ q' in nhds (!₂[x, y, z] : E3),
+      K3d3.burntime p (q' 0) (q' 1) (q' 2) = K3d3.L4.burntime p (q' 0) (q' 1) (q' 2) := by
+    have h1 : ∀ᶠ q' in nhds (!₂[x, y, z] : E3), 0 < k3theta p.R (K3d3.det p) q' :=
+      (k3theta_continuousAt hxd0 hq0).eventually (lt_mem_nhds hθ)
+    have h2 : ∀ᶠ q' in nhds (!₂[x, y, z] : E3), p.R < ‖q'‖ :=
+      continuous_norm.continuousAt.eventually (lt_mem_nhds hq)
+    filter_upwards [h1, h2] with q' hθ' hq'
+    have hok := (k3d3_outcome p q').mpr ⟨h, hq'.le⟩
+    simp only [epv_tree, ite_raise_eq_ok, ite_self] at hok
+    obtain ⟨c0, c1, c2, c3, -⟩ := hok
+    have c4 : K3d3.c4 p (q' 0) (q' 1) (q' 2) := (k3d3_shadow_iff p q').mpr hθ'
+    simp only [epv_tree, if_neg c0, if_neg c1, if_neg c2, if_neg c3, if_pos c4]
+  have elod := sqrt_norm3 (K3d3.det p)
+  simp only [K3d3.det_0, K3d3.det_1, K3d3.det_2] at elod
+  have elop : Real.sqrt (x * x + y * y + z * z) = ‖(!₂[x, y, z] : E3)‖ := by
+    simpa using sqrt_norm3 (!₂[x, y, z] : E3)
+  set lod := ‖K3d3.det p‖ with hlod_def
+  set lop := ‖(!₂[x, y, z] : E3)‖ with hlop_def
+  have hlod0 : 0 < lod := h.hR.trans h.hdet
+  have hlop0 : 0 < lop := h.hR.trans hq
+  have hlop2 : lop ^ 2 = x * x + y * y + z * z := by
+    rw [← elop, Real.sq_sqrt (add_nonneg (add_nonneg (mul_self_nonneg _) (mul_self_nonneg _)) (mul_self_nonneg _))]
+  have hlod2 : lod ^ 2 = p.xd0 * p.xd0 + p.xd1 * p.xd1 + p.xd2 * p.xd2 := by
+    rw [← elod, Real.sq_sqrt (add_nonneg (add_nonneg (mul_self_nonneg _) (mul_self_nonneg _)) (mul_self_nonneg _))]
+  have hbp_pos : 0 < lop ^ 2 - p.R ^ 2 := by nlinarith [h.hR]
+  set lbp := Real.sqrt (lop ^ 2 - p.R ^ 2) with hlbp_def
+  have hlbp0 : 0 < lbp := Real.sqrt_pos.mpr hbp_pos
+  have hlbp2 : lbp ^ 2 = lop ^ 2 - p.R ^ 2 := Real.sq_sqrt hbp_pos.le
+  set S := x * p.xd0 + y * p.xd1 + z * p.xd2 with hS
+  -- Lagrange's identity: strict Cauchy–Schwarz off the line through the centre and the detonator
+  have hlag : lod ^ 2 * lop ^ 2 - S ^ 2
+      = (x * p.xd1 - y * p.xd0) ^ 2 + (x * p.xd2 - z * p.xd0) ^ 2 + (y * p.xd2 - z * p.xd1) ^ 2 := by
+    rw [hlod2, hlop2, hS]; ring
+  have hK2 : 0 < lod ^ 2 * lop ^ 2 - S ^ 2 := by
+    have h0 : 0 ≤ lod ^ 2 * lop ^ 2 - S ^ 2 := by rw [hlag]; positivity
+    refine lt_of_le_of_ne h0 (fun e => hcol ?_)
+    rw [← hlop2, ← hlod2]; linarith
+  have hc2 : (-S / (lod * lop)) ^ 2 < 1 := by
+    rw [div_pow, div_lt_one (by positivity)]; nlinarith
+  have hc_ne1 : -S / (lod * lop) ≠ 1 := fun e => by rw [e] at hc2; norm_num at hc2
+  have hc_ne2 : -S / (lod * lop) ≠ -1 := fun e => by rw [e] at hc2; norm_num at hc2
+  set w := Real.sqrt (1 - (-S / (lod * lop)) ^ 2) with hw_def
+  have hw0 : 0 < w := Real.sqrt_pos.mpr (by linarith)
+  have hw2 : w ^ 2 * (lod ^ 2 * lop ^ 2) = lod ^ 2 * lop ^ 2 - S ^ 2 := by
+    rw [hw_def, Real.sq_sqrt (by linarith)]; field_simp
+  have s1 : x * x + y * y + z * z ≠ 0 := by rw [← hlop2]; positivity
+  have s2 : Real.sqrt (p.xd0 * p.xd0 + p.xd1 * p.xd1 + p.xd2 * p.xd2) * Real.sqrt (x * x + y * y + z * z) ≠ 0 := by
+    rw [elod, elop]; positivity
+  have s3 : -(x * p.xd0 + y * p.xd1 + z * p.xd2)
+      / (Real.sqrt (p.xd0 * p.xd0 + p.xd1 * p.xd1 + p.xd2 * p.xd2) * Real.sqrt (x * x + y * y + z * z)) ≠ -1 := by
+    rw [elod, elop]; exact hc_ne2
+  have s4 : -(x * p.xd0 + y * p.xd1 + z * p.xd2)
+      / (Real.sqrt (p.xd0 * p.xd0 + p.xd1 * p.xd1 + p.xd2 * p.xd2) * Real.sqrt (x * x + y * y + z * z)) ≠ 1 := by
+    rw [elod, elop]; exact hc_ne1
+  have s5 : Real.sqrt (x * x + y * y + z * z) ≠ 0 := by rw [elop]; exact hlop0.ne'
+  have s6 : p.R / Real.sqrt (x * x + y * y + z * z) ≠ -1 := by
+    rw [elop]; have := div_pos h.hR hlop0; linarith
+  have s7 : p.R / Real.sqrt (x * x + y * y + z * z) ≠ 1 := by
+    rw [elop]; exact fun e => by rw [div_eq_one_iff_eq hlop0.ne'] at e; linarith
+  have s8 : Real.sqrt (x * x + y * y + z * z) ^ 2 - p.R ^ 2 ≠ 0 := by rw [elop]; exact hbp_pos.ne'
+  have cx : ContinuousAt (fun x' : ℝ => (!₂[x', y, z] : E3)) x := by
+    refine Continuous.continuousAt ?_
+    exact (PiLp.continuous_toLp 2 _).comp (continuous_pi fun i => by fin_cases i <;> simp <;> fun_prop)
+  have cy : ContinuousAt (fun y' : ℝ => (!₂[x, y', z] : E3)) y := by
+    refine Continuous.continuousAt ?_
+    exact (PiLp.continuous_toLp 2 _).comp (continuous_pi fun i => by fin_cases i <;> simp <;> fun_prop)
+  have cz : ContinuousAt (fun z' : ℝ => (!₂[x, y, z'] : E3)) z := by
+    refine Continuous.continuousAt ?_
+    exact (PiLp.continuous_toLp 2 _).comp (continuous_pi fun i => by fin_cases i <;> simp <;> fun_prop)
+  refine ⟨K3d3.L4.burntime_dx p x y z, K3d3.L4.burntime_dy p x y z, K3d3.L4.burntime_dz p x y z, ?_, ?_, ?_, ?_⟩
+  · refine (K3d3.L4.burntime_hasDerivAt_x p x y z s1 s2 s3 s4 s5 s6 s7 s8).congr_of_eventuallyEq ?_
+    have := cx.eventually near
+    filter_upwards [this] with x' hx'
+    simpa using hx'
+  · refine (K3d3.L4.burntime_hasDerivAt_y p x y z s1 s2 s3 s4 s5 s6 s7 s8).congr_of_eventuallyEq ?_
+    have := cy.eventually near
+    filter_upwards [this] with y' hy'
+    simpa using hy'
+  · refine (K3d3.L4.burntime_hasDerivAt_z p x y z s1 s2 s3 s4 s5 s6 s7 s8).congr_of_eventuallyEq ?_
+    have := cz.eventually near
+    filter_upwards [this] with z' hz'
+    simpa using hz'
+  · rw [k3d3_L4_dx p x y z lod lop lbp w elod elop hlop2 hlop0 hlod0 h.hR h.hD rfl hlbp2 hlbp0 rfl hw0,
+      k3d3_L4_dy p x y z lod lop lbp w elod elop hlop2 hlop0 hlod0 h.hR h.hD rfl hlbp2 hlbp0 rfl hw0,
+      k3d3_L4_dz p x y z lod lop lbp w elod elop hlop2 hlop0 hlod0 h.hR h.hD rfl hlbp2 hlbp0 rfl hw0]
+    have expand : ((p.R * ((-p.xd0 * lop ^ 2 + S * x) / (w * lod * lop ^ 3)) + x * lbp / lop ^ 2) / p.D) ^ 2
+        + ((p.R * ((-p.xd1 * lop ^ 2 + S * y) / (w * lod * lop ^ 3)) + y * lbp / lop ^ 2) / p.D) ^ 2
+        + ((p.R * ((-p.xd2 * lop ^ 2 + S * z) / (w * lod * lop ^ 3)) + z * lbp / lop ^ 2) / p.D) ^ 2
+        = (p.R ^ 2 * ((-p.xd0 * lop ^ 2 + S * x) ^ 2 + (-p.xd1 * lop ^ 2 + S * y) ^ 2
+              + (-p.xd2 * lop ^ 2 + S * z) ^ 2) / (w * lod * lop ^ 3) ^ 2
+          + 2 * p.R * lbp * (x * (-p.xd0 * lop ^ 2 + S * x) + y * (-p.xd1 * lop ^ 2 + S * y)
+              + z * (-p.xd2 * lop ^ 2 + S * z)) / ((w * lod * lop ^ 3) * lop ^ 2)
+          + lbp ^ 2 * (x * x + y * y + z * z) / lop ^ 4) / p.D ^ 2 := by ring
+    rw [expand]
+    refine k3_shadow_grad_sq (S := S) h.hD hlop0 hlod0 hw0 hlbp2 hw2 ?_ ?_ hlop2.symm
+    · rw [hS]
+      linear_combination (-(lop ^ 2) ^ 2) * hlod2 + (-(x * p.xd0 + y * p.xd1 + z * p.xd2) ^ 2) * hlop2
+    · rw [hS]; linear_combination (-(x * p.xd0 + y * p.xd1 + z * p.xd2)) * hlop2
+
 
 /-- non-vacuity: the solver's defaults R = 3, D = 2, x_d = (0, 5), t_d = 0 -/
 example : K3d2.Adm ⟨2, 3, 0, 0, 5⟩ := by
